@@ -17,7 +17,7 @@ ASSUMPTIONS = ["fast mode: graphs without out-degree 3 and strings whose walkabl
                "own precondition)", "check strings have length >= 1 over A,C,G,T"]
 make_loader = coding.make_loader
 ALPHABET = "ACGTNa-"
-BUDGET_S = {"quick": 1500, "thorough": 10000}
+BUDGET_S = {"quick": 1500, "thorough": 1500}
 
 
 def jobs(tier):
